@@ -21,7 +21,8 @@ ASSUMPTIONS = [
     gen.ASSUMPTION,
 ]
 
-GEN_CHAIN = ['Base/PyNum.v', 'Gen/ExtrapolationGen.v', 'Proofs/PyNumFacts.v', 'Proofs/GenExtrapolationEq.v']
+GEN_CHAIN = ['Base/PyNum.v', 'Gen/ExtrapolationGen.v', 'Proofs/PyNumFacts.v', 'Proofs/GenExtrapolationEq.v',
+             'Proofs/GenExtrapolationNormEq.v']
 
 GROUPINGS = {1: 'UNIT', 2: 'GROUPED', 3: 'GROUPED_OPTIMIZED'}
 SLICES = {1: 'ROMBERG_DEFAULT', 2: 'TRAPEZOID'}
